@@ -1431,7 +1431,11 @@ func (m *RadioTap) DecodeFromBytes(data []byte, df gopacket.DecodeFeedback) erro
 			headlen += 2
 		}
 		if headlen%4 == 2 && len(payload) >= headlen+2 {
-			payload = append(payload[:headlen], payload[headlen+2:len(payload)]...)
+			// build the frame without the padding in fresh memory: appending to payload[:headlen] would shift
+			// the rest of the frame inside the caller's buffer
+			trimmed := make([]byte, 0, len(payload)-2)
+			trimmed = append(trimmed, payload[:headlen]...)
+			payload = append(trimmed, payload[headlen+2:len(payload)]...)
 		}
 	}
 
